@@ -1067,11 +1067,6 @@ def eval_listcomp(ex, node, st):
             g.assume(T.forall([k1], z3.Implies(z3.And(k1 >= 0, k1 < ln), z3.And(dom(pos(k1)), arr[k1] == val(pos(k1)))), patterns=[arr[k1]]))
             g.assume(T.forall([k1, k2], z3.Implies(z3.And(k1 >= 0, k1 < k2, k2 < ln), pos(k1) < pos(k2)), patterns=[z3.MultiPattern(pos(k1), pos(k2))]))
             g.assume(T.forall([jj], z3.Implies(dom(jj), z3.And(inv(jj) >= 0, inv(jj) < ln, pos(inv(jj)) == jj)), patterns=[inv(jj)]))
-            # the membership reading of the same list (a consequence of the above, stated for the triggers):
-            # every kept element occurs, nothing else occurs
-            ub = z3.Const("cu", u.sort())
-            g.assume(T.forall([ub], z3.Implies(dom(ub), z3.Exists([jj], z3.And(jj >= 0, jj < ln, arr[jj] == val(ub))))))
-            g.assume(T.forall([jj], z3.Implies(z3.And(jj >= 0, jj < ln), z3.Exists([ub], z3.And(dom(ub), arr[jj] == val(ub)))), patterns=[arr[jj]]))
             o = ex.new_list(g, ln, arr, hint="list")
             # per path: the sidecar's proof steps may name the index maps of the latest filtered list
             g.ghost["last_filtered"] = (o, pos, inv, dom)
